@@ -147,5 +147,6 @@ func OpenDB(dbdir string, options ...Option) (*pebble.DB, error) {
 	for _, option := range options {
 		option.apply(opts)
 	}
+	verifOptions(dbdir, opts)
 	return pebble.Open(dbdir, opts)
 }
